@@ -32,8 +32,26 @@ def generate(rng, tier):
 def nontrivial(case):
     return not case.startswith("c15.gen_biguint n:0") and len(case) > 30
 
+def unsafe_reaching_cases(rng, tier):
+    """API cases of the properties whose code reaches the unsafe blocks: add/sub (asm loops), division
+    (hardware divide), text output (from_utf8_unchecked), random generation (u32 view)."""
+    import importlib
+    out = []
+    for name, per in (("c01", 400), ("c03", 900), ("c06", 500), ("c18", 500), ("c02", 150)):
+        try:
+            mod = importlib.import_module(name)
+            cs = [c for c in mod.generate(rng, "quick") if not c.startswith("h.") and len(c) < 5000]
+        except Exception:
+            continue
+        rng.shuffle(cs)
+        out += cs[: per * (3 if tier == "thorough" else 1)]
+    return out
+
 def extra_checks(ctx):
-    """Re-run the same cases under the guard-page allocator, both placements."""
+    """Re-run the same cases under the guard-page allocator, both placements (debug build); then a
+    RELEASE build under the guard allocator (debug assertions off: an out-of-bounds access hidden
+    behind a debug_assert!, or a hardware-divide fault, shows as a signal) on these cases plus the
+    API cases of the properties whose code reaches the unsafe blocks."""
     out = {"coverage": {}, "broken": [], "violations": []}
     ok, binp, log = ctx["build_harness"](release=False, features="std,rand,serde,guard", target="target_guard")
     if not ok:
@@ -44,6 +62,27 @@ def extra_checks(ctx):
     cases = generate(rng, ctx["tier"])
     lines = ["%d %s" % (i, c) for i, c in enumerate(cases)]
     total = 0
+    okr, binr, logr = ctx["build_harness"](release=True, features="std,rand,serde,guard", target="target_guard")
+    if okr:
+        os.environ["BN_GUARD"] = "end"; ctx["env"]["BN_GUARD"] = "end"
+        rcases = cases + unsafe_reaching_cases(rng, ctx.get("gen_tier", ctx["tier"]))
+        rlines = ["%d %s" % (i, c) for i, c in enumerate(rcases)]
+        wd = os.path.join(ctx["workdir"], "guard_release")
+        os.makedirs(wd, exist_ok=True)
+        res = ctx["run_sharded"](binr, rlines, "gr", wd)
+        badr = 0
+        for i, c in enumerate(rcases):
+            r = res.get(str(i), {}).get("I", ["missing"])[0]
+            if r.startswith("crash") or r in ("missing", "hang") or (c.startswith(("c15.preserve", "c15.ascii", "c15.gen_biguint")) and (r == "ok n:0" or r.startswith("panic"))):
+                badr += 1
+                if badr <= 2:
+                    out["violations"].append({"kind": "guard-release", "case": c, "impl": r,
+                                              "note": "signal / hang / failed observation in the release build under the guard-page allocator"})
+        out["coverage"]["guard_release_cases"] = len(rcases)
+        out["coverage"]["guard_release_faults"] = badr
+        ctx["log"]("[C15] release build under the guard allocator: %d cases, %d faults" % (len(rcases), badr))
+    else:
+        out["broken"].append("corr:guard-release-harness-build")
     for mode in ("end", "start"):
         os.environ["BN_GUARD"] = mode
         ctx["env"]["BN_GUARD"] = mode
@@ -54,7 +93,7 @@ def extra_checks(ctx):
         for i, c in enumerate(cases):
             r = res.get(str(i), {}).get("I", ["missing"])[0]
             total += 1
-            if r.startswith("crash") or r in ("missing", "hang") or r == "ok n:0":
+            if r.startswith("crash") or r in ("missing", "hang") or r == "ok n:0" or (r.startswith("panic") and c.startswith(("c15.preserve", "c15.ascii", "c15.gen_biguint"))):
                 bad += 1
                 if bad <= 2:
                     out["violations"].append({"kind": "guard-%s" % mode, "case": c, "impl": r,
